@@ -160,8 +160,9 @@ def run_case(run, drv, case_seed, tier):
             run.fail("impl-vs-spec", dict(case, route="keyword"), {"why": "option not in its documented field: " + why})
         n_orders = 12 if tier == "quick" else 40
         shapes = set()
-        for i, (argv, shape) in enumerate(orders(rng, opts, root, os.path.join(box, "cli.torrent"), n_orders)):
-            out = os.path.join(box, "cli.torrent")
+        outname = rng.choice(["cli.torrent", "cli.torrent", "weekly.tor", "noext", "x.TORRENT"])
+        for i, (argv, shape) in enumerate(orders(rng, opts, root, os.path.join(box, outname), n_orders)):
+            out = os.path.join(box, outname)
             if os.path.exists(out):
                 os.remove(out)
             sub = rng.choice([["create"], ["new"], []]) if argv[0] != root else ["create"]
@@ -183,7 +184,7 @@ def run_case(run, drv, case_seed, tier):
                     ("argparse", dict(case, argv=[a.replace(box, "$BOX") for a in argv]), (opts, root, box)))
         # configuration file route
         cfg = os.path.join(box, "torrentfile.ini")
-        out_cfg = os.path.join(box, "cfg.torrent")
+        out_cfg = os.path.join(box, rng.choice(["cfg.torrent", "cfg.tor", "cfgnoext"]))
         lines = ["[config]"]
         for k, v in opts.items():
             key = CONFIG_KEYS[k]
@@ -236,7 +237,7 @@ def table_and_model(run, drv):
             raise MachineryError(f"driver: {req[:60]} -> {out[:100]}")
         run.model_checked += 1
         got = parse_kw(out)
-        want = render(opts, root, os.path.join(box, "cli.torrent"))
+        want = render(opts, root, got["outfile"] and bytes.fromhex(got["outfile"][2:]).decode() if got else "")
         if got != want:
             diff = {k: (got.get(k) if got else None, want.get(k)) for k in want
                     if not got or got.get(k) != want.get(k)}
